@@ -211,11 +211,20 @@ def _shard_wrap(runs):
 
 # ---- pixel map -----------------------------------------------------------------------------
 
-def _py_display(vram_bytes: bytes, sl: int = 0, on=(True, True)) -> List[str]:
+def _py_display(vram_bytes: bytes, sl: int = 0, on=(True, True), scratch: int = 0) -> List[str]:
+    """Renders one controller state.  What numpy.empty / empty_like hand out is an environment answer (they promise nothing about
+    content): it is fixed to `scratch`-filled memory here so that every rendering is reproducible; _display_purity varies it."""
+    import numpy as _np
     lcd = HD61202Controller()
     meta = {"chips": [{"on": bool(on[0]), "start_line": sl}, {"on": bool(on[1]), "start_line": sl}], "pages": 8, "width": 64}
     lcd.load_snapshot(meta, vram_bytes)
-    buf = lcd.get_display_buffer()
+    orig_empty, orig_like = _np.empty, _np.empty_like
+    _np.empty = lambda shape, dtype=float, *a, **k: _np.full(shape, scratch, dtype=dtype)
+    _np.empty_like = lambda arr, *a, **k: _np.full_like(arr, scratch)
+    try:
+        buf = lcd.get_display_buffer()
+    finally:
+        _np.empty, _np.empty_like = orig_empty, orig_like
     return ["".join("1" if v else "0" for v in row) for row in buf]
 
 
@@ -296,6 +305,48 @@ def _single_write_check(impl) -> VB:
     return vb
 
 
+def _display_purity() -> VB:
+    """The picture is a function of (display switches, start line, VRAM): the same controller state rendered with all-zero, all-ones
+    and 0xA5 scratch memory (see _py_display), after a fully lit and after a dark picture, must give the same pixels."""
+    vb = VB()
+    lit, dark = bytes([0xFF]) * 1024, bytes(1024)
+    pat = bytes(((i * 37) ^ (i >> 3)) & 0xFF for i in range(1024))
+    for on in ((False, False), (True, False), (False, True), (True, True)):
+        for sl in (0, 9):
+            pics = []
+            for fillv, prior in ((0x00, lit), (0x00, dark), (0xFF, lit), (0xFF, dark), (0xA5, lit)):
+                _py_display(prior, 0, (True, True), fillv)
+                pics.append(_py_display(pat, sl, on, fillv))
+            if any(p != pics[0] for p in pics[1:]):
+                k = next(i for i, p in enumerate(pics) if p != pics[0])
+                diff = sum(1 for r in range(32) for c in range(240) if pics[0][r][c] != pics[k][r][c])
+                vb.add(f"C15/python/display-depends-on-scratch-memory-or-earlier-picture/on={int(on[0])}{int(on[1])}", f"python: display switches {on}, "
+                       f"start line {sl}: {diff} pixels differ between two renderings of the same controller state (rendering #{k} vs #0: "
+                       f"scratch memory content / previously rendered picture differ)", {"purity": True, "on": list(on), "sl": sl})
+    return vb
+
+
+# ---- window mirrors: address bits 4..11 are not decoded ----------------------------------------------------------------
+MIRROR_SCRIPT = [("w", 0x0, 0x3F), ("w", 0x8, 0xB9), ("w", 0x4, 0x45), ("w", 0x2, 0xA5), ("r", 0x1, 0), ("r", 0x3, 0), ("r", 0x3, 0),
+                 ("w", 0xA, 0x5A), ("w", 0x8, 0x41), ("r", 0xB, 0), ("r", 0xB, 0), ("r", 0x7, 0), ("w", 0x0, 0xC5), ("r", 0x9, 0), ("r", 0x5, 0)]
+
+
+def _mirrors(args):
+    """The same command/read script through every mirror of a window (all 256 values of address bits 4..11) is judged by the
+    reference model, which decodes the low nibble only - as the statement's "all 16 low-nibble decodings" of the windows says."""
+    uppers, = args
+    h = rb.harness()
+    vb = VB()
+    n = 0
+    for base in (0x2000, 0xA000):
+        hists = [tuple((k, base | (up << 4) | lo, v) for k, lo, v in MIRROR_SCRIPT) for up in uppers]
+        outs = h.batch([rs_req(hh) for hh in hists])
+        for hh, o in zip(hists, outs):
+            judge(hh, run_py(hh), rs_unpack(o, hh), vb)
+            n += 1
+    return {"n": n, "vb": vb}
+
+
 def run(ctx) -> None:
     rb.build()
     addrs = addresses(ctx.thorough)
@@ -310,6 +361,11 @@ def run(ctx) -> None:
     jobs += [(s, reduced, 4 if ctx.thorough else 3) for s in chunks(reduced, nproc())]
     res = pmap(_bfs, jobs)
     wres = pmap(_shard_wrap, chunks(_wrap_runs(), nproc()))
+    ctx.merge_bucket(_display_purity())
+    mres = pmap(_mirrors, [(c,) for c in chunks(list(range(256)), nproc())])
+    for r in mres:
+        ctx.merge_bucket(r["vb"])
+    ctx.coverage["window_mirror_scripts"] = sum(r["n"] for r in mres)
     pm = pmap(_pixelmap, [(impl, chip, [p]) for impl in ("python", "rust") for chip in (0, 1) for p in range(8)])
     # the map must stay one-to-one under every display start line (scrolling only permutes rows)
     sls = (1, 9, 36) if not ctx.thorough else (1, 7, 8, 9, 31, 32, 36, 63)
@@ -398,6 +454,8 @@ def replay(ctx, w) -> Optional[str]:
     if "history" in w:
         hist = tuple(tuple(e) for e in w["history"])
         judge(hist, run_py(hist), rs_unpack(rb.harness().call(rs_req(hist)), hist), vb)
+    elif w.get("purity"):
+        vb = _display_purity()
     elif "pixelmap" in w and w.get("onswitch"):
         impl, chip = w["pixelmap"], w["key"][0]
         o0 = _pixelmap((impl, chip, list(range(8)), 0))["owner"]
